@@ -731,3 +731,4 @@ package io
 //@   let i0 = i
 //@   modifies buf[*]
 //@   loop 1 invariant [shape] 0 <= off && off <= 20 && 0 <= i && i < pow10(off) && i <= i0
+//@   loop 1 invariant [folds_to_the_number] dfold(elems(buf), off(buf) + off, off(buf) + 20, i) == i0
